@@ -303,10 +303,11 @@ def run(ctx):
             it.call_hooks['smoothing.smoothed_joint'] = sj
 
             def joint_builder(it2, f, a, k):
-                # whatever smoothed_path calls directly, inside the smoothing module, with two neighbouring segments: the joint builder
-                # (it may be a private worker behind the public smoothed_joint)
+                # whatever smoothed_path calls directly, inside the smoothing module, with two neighbouring segments AND at least one more
+                # argument (the joint size): the joint builder (it may be a private worker behind the public smoothed_joint); a helper
+                # that takes just the two segments (e.g. one computing their tangents) is ordinary code
                 if f.info is not None and f.info.module.name == 'smoothing' and f.info.name not in ('smoothed_path', 'kinks', 'is_differentiable') \
-                        and it2.func_stack and it2.func_stack[-1] == 'smoothing.smoothed_path' and len(a) >= 2 \
+                        and it2.func_stack and it2.func_stack[-1] == 'smoothing.smoothed_path' and len(a) >= 2 and len(a) + len(k) >= 3 \
                         and all(isinstance(x, (Obj, Opaque)) and 'start' in getattr(x, 'attrs', {}) for x in a[:2]):
                     return sj
                 return None
